@@ -129,6 +129,17 @@ func (e *Env) seedCorpus(emit func(seedCase)) {
 		emit(seedCase{m: s, p: "pw", class: "code-point-sweep-mnemonic"})
 		emit(seedCase{m: "m", p: s, class: "code-point-sweep-passphrase"})
 	}
+	// white space and invisible characters are part of the input: nothing may be trimmed,
+	// collapsed, case-folded or removed
+	for _, w := range []string{" ", "  ", "\t", "\n", "\r\n", "\u3000", "\u00a0", "\u200b", "\u200d", "\ufeff", "\u00ad", "\u2028", "\x00", "\u034f"} {
+		base := "legal winner thank year wave sausage worth useful legal winner thank yellow"
+		for _, v := range []string{w + base, base + w, strings.Replace(base, " ", " "+w, 1), strings.Replace(base, "winner", "win"+w+"ner", 1), w} {
+			em(v, "TREZOR", "white-space-or-invisible-in-mnemonic")
+			em(base, v, "white-space-or-invisible-in-passphrase")
+		}
+	}
+	em("Legal Winner THANK year", "PassWord", "mixed-case")
+	em("legal winner thank year", "password", "mixed-case")
 	// every byte length 0..300 for either argument (ASCII, so the length is exact)
 	for n := 0; n <= 300; n++ {
 		emit(seedCase{m: strings.Repeat("z", n), p: "q", class: "every-length-mnemonic"})
